@@ -98,6 +98,8 @@ structure St (K : Type) where
   blkOf : List Nat := []
   blocks : List (List Nat) := []
   c4 : C4.State := {}
+  /-- the lattice put aside by `fork` (work continues on a copy; `unfork` returns to it) -/
+  saved : Option (Lattice K) := none
 
 def readQuads : Nat → List String → List C4.Quad
   | 0, _ => []
@@ -209,6 +211,10 @@ def exec (conjv : K → K) (half : K) (st : St K) (cmd : List String) : Option (
     | .ok s => some (st, [s!"o ok {hexLabel s.label} {s.norb} {s.nspin}"])
     | .error e => some (st, [s!"o exc {excStr e}"])
   | ["copy"] => some (st, ["o ok"])
+  | ["fork"] => some ({ st with saved := some st.L }, ["o ok"])       -- a copy is modified; the original must not notice
+  | ["unfork"] => match st.saved with
+    | some L0 => some ({ st with L := L0, saved := none }, ["o ok"])
+    | none => some (st, ["o ok"])
   | ["dumplattice"] => some (st, dumpLattice st.L)
   | ["index", mode] =>
     match Idx.prepare st.L.sites (mode != "0") with
@@ -405,6 +411,8 @@ def replay (conjv : K → K) (half : K) (lines : List String) : IO Unit := do
   let mut lastBulkOk := false
   let mut justPrepared := false
   let mut copyExpect : Option (List String) := none
+  let mut forkDump : Option (List String) := none
+  let mut unforkExpect : Option (List String) := none
   let mut mustBeUnchanged : Option String := none
   -- the implementation's own index table, as dumped by the last `index` command (for the C18 oracle)
   let mut implTbl : List (String × Nat × Nat) := []
@@ -423,6 +431,20 @@ def replay (conjv : K → K) (half : K) (lines : List String) : IO Unit := do
     | none => pure ()
     -- a copied lattice defines the same model: the dump right after `copy` equals the dump right before it
     if cmd == ["copy"] && obs == ["o ok"] && !lastDump.isEmpty then copyExpect := some lastDump
+    -- fork ... unfork: a copy was modified and put aside; the ORIGINAL must be what it was at the time of the fork
+    if cmd == ["fork"] && obs == ["o ok"] then forkDump := if lastDump.isEmpty then none else some lastDump
+    if cmd == ["unfork"] && obs == ["o ok"] then
+      unforkExpect := forkDump
+      forkDump := none
+    if cmd == ["dumplattice"] then
+      match unforkExpect with
+      | some d =>
+        if obs != d then
+          let diff := ((obs.zip d).find? fun (x, y) => x != y)
+          IO.println s!"PROPFAIL[C20] cmd#{idx} the original lattice changed while a copy of it was modified: {match diff with | some (x, y) => s!"now=[{x}] at the fork=[{y}]" | none => s!"{obs.length} vs {d.length} lines"}"
+          tally := tally.pfail
+      | none => pure ()
+      unforkExpect := none
     if cmd == ["dumplattice"] then
       match copyExpect with
       | some d =>
